@@ -104,8 +104,18 @@ Record mapping := {
   m_deleted : bool;    (* the file was unlinked: the kernel appends " (deleted)" *)
   m_lines : list kline }.
 
+(* seq_file_path(m, file, "\n"): every newline of a name is written as the four bytes \012
+   (mangle_path); nothing else is escaped -- not even the backslash, so the kernel's
+   representation of names is not injective *)
+Fixpoint esc_nl (p : bytes) : bytes :=
+  match p with
+  | [] => []
+  | c :: r => if c =? 10 then 92 :: 48 :: 49 :: 50 :: esc_nl r else c :: esc_nl r
+  end.
+(* the name as the kernel shows it *)
+Definition kname (m : mapping) : bytes := esc_nl (m_path m).
 Definition shown_path (m : mapping) : bytes :=
-  if m_deleted m then m_path m ++ deleted_sfx else m_path m.
+  if m_deleted m then kname m ++ deleted_sfx else kname m.
 Definition hdr_tokens (m : mapping) : list bytes :=
   [m_addr m; m_perms m; m_offset m; m_dev m; m_inode m].
 Definition hdr_core (m : mapping) : bytes :=
@@ -123,28 +133,38 @@ Definition path_ok (ex : bytes -> bool) (m : mapping) : bool :=
   match m_path m with
   | [] => negb (m_deleted m)
   | c :: _ =>
-    (* names start with '/', '[' or a letter (the blanks in front are the kernel's column
-       padding) and the kernel escapes newlines; every other byte is allowed anywhere *)
-    negb (is_ws c) && negb (contains 10 (m_path m))
+    (* names are d_path output ('/...', '(unreachable)/...'), bracketed pseudo-names or
+       'anon_inode:'-like names: the first byte is never an ASCII blank (blanks in front of
+       the name are the kernel's column padding; see C13_maps_leading_blank_observation).
+       Every byte is allowed after it, newlines included (shown escaped). *)
+    negb (is_ws c)
     (* the kernel's " (deleted)" marker is readable as such: no file is literally
-       named "<path> (deleted)", and a live file whose own name ends so exists *)
+       named "<name> (deleted)", and a live file whose shown name ends so exists *)
     && (if m_deleted m then negb (ex (shown_path m))
-        else negb (suffixb deleted_sfx (m_path m)) || ex (m_path m))
+        else negb (suffixb deleted_sfx (shown_path m)) || ex (shown_path m))
   end.
 (* everything the kernel guarantees about a mapping: its header line ... *)
 Definition wf_header (ex : bytes -> bool) (m : mapping) : bool :=
   forallb tok_ok (hdr_tokens m) && negb (suffixb [58] (m_addr m))
   && match m_addr m with c :: _ => is_hex c | [] => false end      (* "%08lx-%08lx" *)
   && path_ok ex m.
-(* ... and the lines below it: each of the ten row figures exactly once, Private_Hugetlb at
-   most once, any number of other lines (any names that are not figure names and do not
-   start with "Private", ANY values) *)
+(* ... and the lines below it: at least one, each of the eleven figures at most once, any
+   number of other lines (any names that are not figure names and do not start with
+   "Private", ANY values) *)
 Definition wf_body (ls : list kline) : bool :=
   forallb wf_line ls
-  && forallb (fun f => Nat.eqb (count_fig f ls) 1) row_figs
-  && Nat.leb (count_fig FPrivateHugetlb ls) 1.
+  && forallb (fun f => Nat.leb (count_fig f ls) 1) all_figs
+  && match ls with [] => false | _ => true end.
 Definition wf_kernel (ex : bytes -> bool) (m : mapping) : bool :=
   wf_header ex m && wf_body (m_lines m).
+
+(* a kernel prints the same set of lines for every mapping (which lines depends on its
+   version and configuration, not on the mapping): each row figure is on every mapping or
+   on none.  Needed by memory_maps only (its per-file dict is never cleared, see
+   C13_maps_stale_dict_refuted). *)
+Definition has_fig (f : fig) (m : mapping) : bool := Nat.eqb (count_fig f (m_lines m)) 1.
+Definition uniform_figs (ms : list mapping) : bool :=
+  forallb (fun f => forallb (has_fig f) ms || forallb (fun m => negb (has_fig f m)) ms) row_figs.
 
 (* the complete set of lines a current (6.x) kernel prints below a header, in its order;
    [fv] = the eleven figures, [d 0..12] = the values of the other lines *)
@@ -179,7 +199,9 @@ Definition k6_rollup_lines (fv : fig -> bytes) (d : nat -> bytes) : list kline :
 Definition kb (m : mapping) (f : fig) : Z := fig_kb f (m_lines m).
 Definition spec_row (m : mapping) : maprow :=
   {| w_addr := m_addr m; w_perms := m_perms m;
-     w_path := match m_path m with [] => anon_path | p => p end;
+     (* the mapping's own path as the kernel shows it: newlines as \012 (= the path itself
+        when it contains none, esc_nl_id) *)
+     w_path := match m_path m with [] => anon_path | _ => kname m end;
      w_nums := map (fun f => kb m f * 1024) row_figs |}.
 Definition private_kb (m : mapping) : Z :=
   kb m FPrivateClean + kb m FPrivateDirty + kb m FPrivateHugetlb.
@@ -207,6 +229,36 @@ Definition consistent (rl : rollup) (ms : list mapping) : bool :=
   (ru_kb rl FPrivateClean + ru_kb rl FPrivateDirty + ru_kb rl FPrivateHugetlb =? sum_over private_kb ms)
   && (ru_kb rl FPss =? sum_over (fun m => kb m FPss) ms)
   && (ru_kb rl FSwap =? sum_over (fun m => kb m FSwap) ms).
+
+(* a real kernel keeps Pss in sub-kB precision: each mapping shows floor(pss_i), the roll-up
+   shows floor(sum pss_i), hence  sum floor <= roll-up <= sum floor + (n - 1)  for n mappings
+   (n = 0: equal).  Private_* and Swap are whole pages and add up exactly. *)
+Definition rounded (rl : rollup) (ms : list mapping) : bool :=
+  (ru_kb rl FPrivateClean + ru_kb rl FPrivateDirty + ru_kb rl FPrivateHugetlb =? sum_over private_kb ms)
+  && (sum_over (fun m => kb m FPss) ms <=? ru_kb rl FPss)
+  && (ru_kb rl FPss <=? sum_over (fun m => kb m FPss) ms + Z.of_nat (pred (length ms)))
+  && (ru_kb rl FSwap =? sum_over (fun m => kb m FSwap) ms).
+(* the record when such a roll-up is the source: its own (more precise) Pss *)
+Definition spec_full_ru (pagesize : Z) (r : statm) (ms : list mapping) (rl : rollup) : list Z :=
+  let '(uss, _, swap) := spec_sums ms in spec_meminfo pagesize r ++ [uss; ru_kb rl FPss * 1024; swap].
+
+(* ------------------------------------------------ record layouts *)
+(* documented field names: statm's size/resident/shared/text(trs)/lib(lrs)/data(drs)/dt are
+   reported as vms/rss/shared/text/lib/data/dirty, in the order rss, vms, ...; compared with
+   the namedtuples of the code through coq/Gen/C13_Tables.v *)
+Definition fig_field (f : fig) : bytes :=
+  match f with
+  | FRss => bs "rss" | FSize => bs "size" | FPss => bs "pss"
+  | FSharedClean => bs "shared_clean" | FSharedDirty => bs "shared_dirty"
+  | FPrivateClean => bs "private_clean" | FPrivateDirty => bs "private_dirty"
+  | FReferenced => bs "referenced" | FAnonymous => bs "anonymous" | FSwap => bs "swap"
+  | FPrivateHugetlb => bs "private_hugetlb"
+  end.
+Definition doc_pmem : list bytes :=
+  [bs "rss"; bs "vms"; bs "shared"; bs "text"; bs "lib"; bs "data"; bs "dirty"].
+Definition doc_pfullmem : list bytes := doc_pmem ++ [bs "uss"; bs "pss"; bs "swap"].
+Definition doc_grouped : list bytes := bs "path" :: map fig_field row_figs.
+Definition doc_ext : list bytes := bs "addr" :: bs "perms" :: doc_grouped.
 
 (* ------------------------------------------------ grouping *)
 (* field-wise sum of n-column rows *)
